@@ -549,7 +549,18 @@ func directBGPExpect(v *directView, svc *directService, me string) (whyNot strin
 
 // ---------------------------------------------------------------- generators
 
-var directNamePalette = []string{"n1", "n2", "n3", "iris1", "iris2", "worker-a", "worker-b", "worker-10", "worker-2", "cp-0", "edge.example.com", "N1"}
+// long names (Kubernetes allows 253 octets): directLongA/B share their first 64 octets, so anything that
+// truncates the election key "node#address" cannot tell them apart; directLongC is a 45-octet FQDN (with an
+// IPv6 address the key passes 64 octets), directLongD has the maximum length.
+var (
+	directLongA = "prod-eu-west-1-cluster-0007-pool-generic-workers-large-0123456789-aaaa"
+	directLongB = "prod-eu-west-1-cluster-0007-pool-generic-workers-large-0123456789-bbbb"
+	directLongC = "ip-10-20-30-40.eu-west-1.compute.example.corp"
+	directLongD = strings.Repeat("node-with-a-very-long-name.", 9) + "example.io"
+)
+
+var directNamePalette = []string{"n1", "n2", "n3", "iris1", "iris2", "worker-a", "worker-b", "worker-10", "worker-2", "cp-0", "edge.example.com", "N1",
+	directLongA, directLongB, directLongC, directLongD}
 
 var directNetConds = []string{"", "", "", "False", "False", "Unknown", "True", "True"}
 
